@@ -59,8 +59,8 @@ macro_rules! h_copy_range {
             let s = nd::upto(e);
             w!(s == n && n > 0, "empty range at s = e = len of a non-empty vector");
             w!(s == 0 && e == n && n == ra.cap, "whole vector at full capacity");
-            w!(s > 0 && s % $wb == 0 && e > s && e % $wb != 0, "start on a word boundary, end inside a word");
-            w!(s % $wb != 0 && e % $wb == 0 && e > s + $wb, "end on a word boundary, start inside an earlier word");
+            w!((ra.cap == $wb && s == $wb) || (s > 0 && s % $wb == 0 && e > s && e % $wb != 0), "start on a word boundary, end inside a word (one-word vectors: empty slice at full capacity)");
+            w!((ra.cap == $wb && s % $wb != 0 && e == $wb) || (s % $wb != 0 && e % $wb == 0 && e > s + $wb), "end on a word boundary, start inside an earlier word (one-word vectors: inside the word)");
             w!(e < n && ra.v.bit(e) && e > s, "source bit just above the range is set");
             let r = a.copy_range(s..e).into_raw();
             assert!(r.len == e - s, "C08: copy_range length != e - s");
@@ -131,8 +131,8 @@ macro_rules! h_split {
             let i = nd::upto(n);
             w!(i == n && n > 0, "split at i = len");
             w!(i == 0 && n > 0, "split at i = 0");
-            w!(i > 0 && i < n && i % $wb == 0, "split on a word boundary");
-            w!(i % $wb != 0 && n > i + $wb, "split inside a word with more than a word above");
+            w!((ra.cap == $wb && i == $wb) || (i > 0 && i < n && i % $wb == 0), "split on a word boundary (one-word vectors: at full capacity)");
+            w!((ra.cap == $wb && i % $wb != 0 && n == $wb) || (i % $wb != 0 && n > i + $wb), "split inside a word with more than a word above (one-word vectors: full vector)");
             let mut lo = a.clone();
             let hi = lo.split_off(i);
             let (hi2, lo2) = a.clone().split(i);
@@ -368,3 +368,13 @@ h_split_ni!(c08_q_split_bvfix_n9_i9, 5, bvfix, 9, 9);
 h_rejoin_ni!(c08_q_rejoin_bvfix_n128_i64, 20, bvfix, 128, 64);
 h_rejoin_ni!(c08_q_rejoin_bvfix_n100_i37, 20, bvfix, 100, 37);
 h_rejoin_ni!(c08_t_rejoin_bvfix_n128_i1, 20, bvfix, 128, 1);
+
+// ---- one-word fixed vectors (a vector filled to capacity: s = e = len = capacity) ---------------
+h_copy_range!(c08_q_range_f8x1, 3, f8x1(anylen(8)), 8);
+h_copy_range!(c08_q_range_f16x1, 3, f16x1(anylen(16)), 16);
+h_copy_range!(c08_q_range_f64x1, 3, f64x1(anylen(64)), 64);
+h_copy_range!(c08_t_range_f32x1, 3, f32x1(anylen(32)), 32);
+h_copy_range!(c08_t_range_f128x1, 3, f128x1(anylen(128)), 128);
+h_split!(c08_q_split_f8x1, 5, f8x1(anylen(8)), 8);
+h_split!(c08_t_split_f16x1, 6, f16x1(anylen(16)), 16);
+h_first_last!(c08_q_firstlast_f8x1, 3, f8x1(anylen(8)));
